@@ -52,6 +52,7 @@ def case_report(ctx, spec):
 
 
 def _check_reports(bt, b, spec):
+    labs_extra = []
     s = b.strategy
     V = np.asarray(s.values, dtype=float)
     n = len(V)
@@ -124,6 +125,31 @@ def _check_reports(bt, b, spec):
     rp = np.asarray(res.prices[b.name], dtype=float)
     if not np.allclose(rp, np.asarray(s.prices, dtype=float), rtol=0, atol=0):
         raise Violation("Result.prices != strategy.prices", signature="c18:result-prices")
+    # a Result over several backtests (here: the same strategy definition over the whole data and over its tail, so the two
+    # start on different dates): each column is still that backtest's own index on the dates it covers
+    k0 = spec.get("second_start")
+    if k0:
+        tail = dict(spec, dates=spec["dates"][k0:], prices={t: v[k0:] for t, v in spec["prices"].items()})
+        tail = {kk: vv for kk, vv in tail.items() if kk not in ("second_start", "report_order", "mixed_kinds")}
+        fr_ok = all(f.get("dates") is None for f in (tail.get("frames") or {}).values())
+        if fr_ok and not tail.get("frames") and not tail.get("bidoffer"):
+            try:
+                b2 = c10.run_backtest(bt, tail)
+            except Exception:
+                b2 = None
+            if b2 is not None:
+                b2.name = str(b.name) + "_tail"
+                res2 = report(lambda: bt.backtest.Result(b, b2), "Result of two backtests")
+                for bb in (b, b2):
+                    # (a Result keeps the dates all its backtests share)
+                    col = res2.prices[bb.name]
+                    own = bb.strategy.prices.reindex(col.index)
+                    if len(col) == 0:
+                        continue
+                    if not np.allclose(np.asarray(col, dtype=float), np.asarray(own, dtype=float), rtol=0, atol=0, equal_nan=True):
+                        i = int(np.argmax(~np.isclose(np.asarray(col, dtype=float), np.asarray(own, dtype=float), rtol=0, atol=0, equal_nan=True)))
+                        raise Violation("Result(whole, tail).prices[%s] on %s is %r but that backtest's index is %r" % (bb.name, own.index[i], float(col.iloc[i]), float(own.iloc[i])), signature="c18:result-prices-multi")
+                labs_extra.append("result_of_two_backtests")
     # transactions
     tx = report(lambda: res.get_transactions(), "get_transactions")
     mult = {}
@@ -154,7 +180,7 @@ def _check_reports(bt, b, spec):
         same = v0.equals(v1) if hasattr(v0, "equals") else v0 == v1
         if not same:
             raise Violation("%s read before the other reports differs from the same report read afterwards" % nm, signature="c18:report-order:" + nm)
-    labs = gen.spec_labels(spec)
+    labs = gen.spec_labels(spec) + labs_extra
     if order:
         labs.append("first_report=" + order[0])
     if any(sum(1 for x in secs if x.name == nm) > 1 for nm in ap):
@@ -180,6 +206,8 @@ def _reader_cb(algo, target):
 @st.composite
 def report_spec(draw):
     spec = draw(_report_spec())
+    if draw(st.integers(0, 3)) == 0 and len(spec["dates"]) >= 5 and not spec.get("frames") and not spec.get("bidoffer"):
+        spec["second_start"] = draw(st.integers(1, len(spec["dates"]) - 3))
     spec["report_order"] = draw(st.lists(st.sampled_from(["security_weights", "herfindahl_index", "positions", "turnover", "weights"]), min_size=0, max_size=3, unique=True))
     if draw(st.booleans()):
         nodes = list(gen.walk_nodes(spec["tree"]))
